@@ -51,6 +51,7 @@ type Obl struct {
 type cutRec struct {
 	block    *ssa.BasicBlock
 	from, to int
+	loop     bool            // the facts are the invariants assumed at a loop head (contract `focus`): requires stay visible
 	soft     bool            // nothing forgotten: only the focused context is tried first
 	facts    map[int]string  // context command -> label of the cut fact it states
 	keep     map[string]bool // labels visible to every obligation in its focused context
@@ -125,6 +126,8 @@ type VC struct {
 	callCount      map[string]int
 	blockMarks     []blockMark          // where the context commands of each top-level block start
 	cfReach        map[int]map[int]bool // acyclic reachability between the top-level function's blocks
+	loopFocus      map[*Loop]*cutRec
+	focusLoop      *Loop // set while the preservation obligations of a loop are generated
 	cuts           []*cutRec
 	reqStart       int               // context length before the requires clauses
 	curBlock       *ssa.BasicBlock   // block of the top-level frame being executed
@@ -228,6 +231,9 @@ func (vc *VC) oblige(kind, label string, reach, goal *Term, pos token.Pos, src s
 			}
 			o.Cut = c
 		}
+	}
+	if o.Cut == nil && vc.focusLoop != nil {
+		o.Cut = vc.loopFocus[vc.focusLoop]
 	}
 	if g.String() == "true" {
 		o.Status = "unsat"
@@ -657,14 +663,14 @@ func (vc *VC) focusedScript(o *Obl) string {
 			continue
 		}
 		q := strings.Contains(c, "(forall ")
-		if q && i >= vc.reqStart && i < vc.entryLen && !strings.HasSuffix(c, ";E") {
+		if q && !o.Cut.loop && i >= vc.reqStart && i < vc.entryLen && !strings.HasSuffix(c, ";E") {
 			continue
 		}
 		if q && i >= o.Cut.from && i < o.Cut.to {
 			continue
 		}
 		if l, ok := o.Cut.facts[i]; ok && q {
-			if !(o.Cut.keep[l] || l == "cut."+o.Label || l == "cut"+o.Label) {
+			if !(o.Cut.keep[l] || l == "cut."+o.Label || l == "cut"+o.Label || (o.Cut.loop && l == o.Label)) {
 				continue
 			}
 		}
